@@ -234,15 +234,16 @@ class Run(object):
             raise ValueError('unknown environment event %r' % (e,))
 
     def _second_run(self):
+        at = len(self.ev)          # notifications of a second run that does start are logged after its `run` event
         coro = self.app.run()
         try:
             coro.send(None)
         except RuntimeError:
-            self.log(e='run', ok=False)
+            self.ev.insert(at, dict(e='run', ok=False))
         except StopIteration:
-            self.log(e='run', ok=True)     # ran (to completion) a second time
+            self.ev.insert(at, dict(e='run', ok=True))     # ran (to completion) a second time
         else:
-            self.log(e='run', ok=True)     # started a second time
+            self.ev.insert(at, dict(e='run', ok=True))     # started a second time
         finally:
             try:
                 coro.close()
